@@ -236,4 +236,37 @@ def replaceAll (pat repl : List Char) (fuel : Nat) (s : List Char) : List Char :
       if !pat.isEmpty && pat.isPrefixOf (c :: cs) then repl ++ replaceAll pat repl fuel ((c :: cs).drop pat.length)
       else c :: replaceAll pat repl fuel cs
 
+/-! ### File discovery of the two `main` functions
+
+`main` collects its file lists with `pathlib.Path(SEARCHDIR).glob(pat)` (`-r`: `.rglob(pat)`) for the
+patterns `*.odml`, `*.xml`, `*.json`, `*.yaml`, in this order (the `.odml` and `.xml` lists are
+joined, the three lists are handed to `run_conversion` one after the other: one loop over the
+concatenation).  The tree below SEARCHDIR is given as its entries `(directory, name)` in the
+order the file system lists them (`directory` spelled as pathlib spells it: SEARCHDIR for the top).
+A name matches `*<ext>` when it ends in `<ext>` (fnmatch on POSIX: case-sensitive, a leading
+dot is nothing special for pathlib); `glob` looks at the top directory only, `rglob` at every
+directory.  **The names of the directories play no part.** -/
+
+/-- The endings `main` looks for, in the order of its lists. -/
+def mainExts : List (List Char) := [".odml".toList, ".xml".toList, ".json".toList, ".yaml".toList]
+
+/-- `Path(root).glob('*' + ext)` / `Path(root).rglob('*' + ext)` over the entries of the tree. -/
+def globExt (root : Path) (recursive : Bool) (tree : List (Path × List Char)) (ext : List Char) :
+    List Path :=
+  (tree.filter fun e => endsWith e.2 ext && (recursive || e.1 == root)).map fun e => pyJoin e.1 e.2
+
+/-- `xfiles + jfiles + yfiles` of `main`. -/
+def discover (root : Path) (recursive : Bool) (tree : List (Path × List Char)) : List Path :=
+  mainExts.flatMap (globExt root recursive tree)
+
+/-- odmlconvert's `main` after the argument checks and `mkdtemp` (`outDir`). -/
+def mainConvert (T : Tool) (outDir root : Path) (recursive : Bool) (tree : List (Path × List Char))
+    (fs : Fs) : Fs × Except Exc (List Report) :=
+  loop (convStep T outDir) (discover root recursive tree) fs
+
+/-- odmltordf's `main` after the argument checks and the two `mkdtemp` (`outDir`, `rdfDir`). -/
+def mainRdf (T : Tool) (outDir rdfDir root : Path) (recursive : Bool)
+    (tree : List (Path × List Char)) (fs : Fs) : Fs × Except Exc (List Report) :=
+  loop (rdfStep T outDir rdfDir) (discover root recursive tree) fs
+
 end Batch
